@@ -834,3 +834,14 @@ ASSUMPTIONS = []
 from .common import no_hidden_state_check as _no_hidden_state_check  # noqa: E402
 EXTRA_CHECKS = list(globals().get("EXTRA_CHECKS", [])) + [_no_hidden_state_check(
     ["pydsdl._data_type_builder", "pydsdl._dsdl_definition"], "reference resolution")]
+
+
+# the name accessors of DSDLDefinition (full_namespace, short_name, root_namespace, name_components) are USED here through the
+# interface contracts of ReadableDSDLFile; their bodies are verified in the run of C15 - imported so that a change which
+# breaks them (a relative reference then completes in the wrong namespace) is reported by this check too
+from .link import linked as _linked  # noqa: E402
+EXTRA_CHECKS = list(globals().get("EXTRA_CHECKS", [])) + [_linked(
+    "C15", "the name accessors of DSDLDefinition",
+    ["DSDLDefinition.full_namespace", "DSDLDefinition.short_name", "DSDLDefinition.root_namespace", "DSDLDefinition.name_components"],
+    ["_dsdl_definition.py", "_serializable/_composite.py", "_serializable/_name.py"],
+    ["c15.py", "c05.py", "names.py", "common.py", "fsprobe.py"])]
